@@ -15,13 +15,20 @@ PYOP = {"add": op_.add, "sub": op_.sub, "mul": op_.mul, "div": op_.truediv, "eq"
         "le": op_.le, "gt": op_.gt, "ge": op_.ge}
 
 
-def operand(v):
+def operand(v, op: str = ""):
     import bind
-    return float(v["val"]) if v["kind"] == "scalar" else bind.gamma(v)
+    if v["kind"] != "scalar":
+        return bind.gamma(v)
+    # the type of a scalar operand is a presentation (rotated with the array layout), as in harness/c03.py
+    x = float(v["val"])
+    if op in ("radd", "rsub", "rdiv", "div"):
+        return x
+    return {"default": float, "swapped": (np.int64 if x.is_integer() else np.float64),
+            "strided": np.float32, "grown": (int if x.is_integer() else float)}[bind.get_layout()](x)
 
 
 def apply(X, op: str, a: dict):
-    r = operand(a["rhs"]) if "rhs" in a else None
+    r = operand(a["rhs"], op) if "rhs" in a else None
     with np.errstate(all="ignore"):
         if op in PYOP:
             return PYOP[op](X, r)
